@@ -684,6 +684,7 @@ fn kind_name(message: &str) -> &'static str {
         "Index out of bounds" => "IndexOutOfBounds",
         "Type mismatch" => "TypeMismatch",
         "Invalid index" => "InvalidIndex",
+        "Undefined variable" => "UndefinedVariable",
         "Unsupported process execution" => "ProcessUnsupported",
         "Process execution denied" => "ProcessDenied",
         "Process spawn failed" => "ProcessSpawnFailed",
